@@ -118,6 +118,33 @@ def unescBytes : List UInt8 → Option (List UInt8)
 def pathUnescape (s : String) : Option String :=
   (unescBytes s.toUTF8.toList).bind fun bs => String.fromUTF8? (ByteArray.mk bs.toArray)
 
+/-- `strings.Split(s, string(c))` on code points -/
+def splitCharL (c : Char) : List Char → List (List Char)
+  | [] => [[]]
+  | a :: r =>
+    match splitCharL c r with
+    | [] => [[]]   -- unreachable
+    | seg :: segs => if a = c then [] :: seg :: segs else (a :: seg) :: segs
+
+/-- `strings.SplitN(s, "#", 2)`: the part before the first '#', and the part after it when there is one -/
+def cutHash (s : String) : String × Option String :=
+  let cs := s.toList
+  let before := cs.takeWhile (· ≠ '#')
+  let rest := cs.dropWhile (· ≠ '#')
+  (String.ofList before, match rest with | [] => none | _ :: after => some (String.ofList after))
+
+/-- Go `path.Ext` -/
+def ext (p : String) : String :=
+  let lastElem := (p.toList.reverse.takeWhile (· ≠ '/')).reverse
+  if lastElem.contains '.' then
+    String.ofList ('.' :: (lastElem.reverse.takeWhile (· ≠ '.')).reverse)
+  else ""
+
+/-- `strings.Contains` -/
+def containsSub (sub s : String) : Bool :=
+  let n := sub.toList
+  (List.range (s.toList.length + 1)).any fun i => n.isPrefixOf (s.toList.drop i)
+
 /-- `strconv.Itoa` for naturals -/
 def itoa (n : Nat) : String := toString n
 
